@@ -39,6 +39,8 @@ struct BufMon {
   bool worker_phase = false;
   int loads_ended = 0;
   int owner_tid = -1;
+  int io_open = 0;            // 1 = a load of this buffer is in progress, 2 = an export
+  std::string pending;        // worker access outside its window, waiting to see whether the I/O thread uses the buffer again
   uint32_t last_epoch[MAXT];
   BufMon() { memset(last_epoch, 0, sizeof(last_epoch)); }
 };
@@ -385,9 +387,15 @@ static void mon_worker_access(int b, const char *what) {
   ThreadRec *me = S.cur;
   BufMon &m = S.bm[b];
   if (m.loads_ended == 0) S.res.probe_look_before_first_load++;
-  if (!m.worker_phase)
-    mon_violation("phase", std::string("worker ") + what + " of buffer " + std::to_string(b) + " by t" + std::to_string(me->id) +
-                               (m.loads_ended == 0 ? " before the I/O thread finished filling it" : " after it was handed back / while the I/O thread owns it"));
+  if (!m.worker_phase) {
+    std::string d = std::string("worker ") + what + " of buffer " + std::to_string(b) + " by t" + std::to_string(me->id);
+    if (m.io_open)
+      mon_violation("phase", d + " while the I/O thread is in the middle of " + (m.io_open == 1 ? "filling" : "flushing") + " it");
+    else if (m.pending.empty())
+      // outside the worker's window, but no I/O is in progress: this only matters if the I/O thread uses the buffer
+      // again (a buffer that was retired for good is nobody's any more) - decided at the next I/O begin on this buffer
+      m.pending = d + (m.loads_ended == 0 ? " before the I/O thread filled it" : " after it was handed back") + " (step " + std::to_string(S.res.steps) + ")";
+  }
   if (m.owner_tid == -1) m.owner_tid = me->id;
   else if (m.owner_tid != me->id)
     mon_violation("owner", "buffer " + std::to_string(b) + " touched by t" + std::to_string(me->id) + " but owned by worker thread t" + std::to_string(m.owner_tid));
@@ -397,9 +405,10 @@ static void mon_worker_access(int b, const char *what) {
   me->open_buf = b;
 }
 
-static void mon_io_begin(int b, const char *what) {
+static void mon_io_begin(int b, int which, const char *what) {
   if (b < 0 || b >= (int)S.bm.size()) return;
   ThreadRec *me = S.cur;
+  BufMon &m = S.bm[b];
   if (S.io_tid == -1) S.io_tid = me->id;
   else if (S.io_tid != me->id) mon_violation("owner", std::string(what) + " by t" + std::to_string(me->id) + " but I/O thread is t" + std::to_string(S.io_tid));
   for (ThreadRec *t : S.th)
@@ -407,11 +416,17 @@ static void mon_io_begin(int b, const char *what) {
       S.res.probe_io_between_look_and_use++;
       mon_violation("phase", std::string("I/O thread began ") + what + " of buffer " + std::to_string(b) + " while worker t" + std::to_string(t->id) + " is using it");
     }
-  S.bm[b].worker_phase = false;
+  if (!m.pending.empty()) {
+    mon_violation("phase", m.pending + ", and the I/O thread went on to " + what + " it");
+    m.pending.clear();
+  }
+  m.worker_phase = false;
+  m.io_open = which;
   mon_access(b, true, what);
 }
 static void mon_io_end(int b, bool load, const char *what) {
   if (b < 0 || b >= (int)S.bm.size()) return;
+  S.bm[b].io_open = 0;
   mon_access(b, true, what);
   if (load) { S.bm[b].worker_phase = true; S.bm[b].loads_ended++; }
 }
@@ -454,7 +469,7 @@ void hook_event(int kind, const void *p1, const void *p2, unsigned long n) {
     record(EV_LOAD_BEGIN, b, 0);
     close_interval(me);
     yield_point();
-    mon_io_begin(b, "load");
+    mon_io_begin(b, 1, "load");
     break;
   }
   case 4: { // LOAD_END
@@ -469,7 +484,7 @@ void hook_event(int kind, const void *p1, const void *p2, unsigned long n) {
     record(EV_EXPORT_BEGIN, b, 0);
     close_interval(me);
     yield_point();
-    mon_io_begin(b, "export");
+    mon_io_begin(b, 2, "export");
     break;
   }
   case 6: { // EXPORT_END
